@@ -127,7 +127,7 @@ inline std::string stats_json(const sim::Stats& s) {
 struct Outcome {
     std::string verdict = "ok";     // ok or a violation class
     std::string detail;
-    uint64_t hash = 0;
+    uint64_t hash = 0, ohash = 0, phash = 0;
     sim::Stats st;
     std::map<std::string, long> probes;  // harness "this rare condition was hit" counters
     std::string sig;                     // optional coverage signature (e.g. job->rank map)
@@ -137,6 +137,8 @@ struct Outcome {
     void absorb(const sim::Result& r) {
         nworlds++;
         hash = hash * 1099511628211ULL ^ r.hash;
+        ohash = ohash * 1099511628211ULL ^ r.order_hash;
+        phash = phash * 1099511628211ULL ^ r.p2p_hash;
         const sim::Stats& s = r.st;
 #define ACC(f) st.f += s.f
         ACC(steps); ACC(yields); ACC(sends); ACC(sends_rdv); ACC(rdv_blocked); ACC(deliveries); ACC(delivered_out_of_global_order);
@@ -227,7 +229,7 @@ inline int harness_main(int argc, char** argv, const char* name, const RunFn& ru
         double rt = std::chrono::duration<double>(std::chrono::steady_clock::now() - r0).count();
         std::ostringstream o;
         o << "RESULT {\"harness\":\"" << name << "\",\"seed\":" << rs.seed << ",\"verdict\":\"" << jesc(oc.verdict) << "\",\"detail\":\"" << jesc(oc.detail)
-          << "\",\"hash\":\"" << std::hex << oc.hash << std::dec << "\",\"cfg\":\"" << jesc(rs.cfg.str()) << "\",\"nworlds\":" << oc.nworlds
+          << "\",\"hash\":\"" << std::hex << oc.hash << "\",\"ohash\":\"" << oc.ohash << "\",\"phash\":\"" << oc.phash << std::dec << "\",\"cfg\":\"" << jesc(rs.cfg.str()) << "\",\"nworlds\":" << oc.nworlds
           << ",\"wall\":" << rt << ",\"stats\":" << stats_json(oc.st) << ",\"sig\":\"" << jesc(oc.sig) << "\",\"probes\":{";
         bool first = true;
         for (auto& p : oc.probes) { if (!first) o << ","; first = false; o << "\"" << jesc(p.first) << "\":" << p.second; }
